@@ -736,6 +736,7 @@ class Return(Exception):
 
 
 # std methods that take `&mut self` only to hand out a pointer / reference: no state change by the call itself
+_VARIANT_NAMES = {"Some", "None", "Ok", "Err", "Continue", "Break", "Less", "Equal", "Greater"}
 _PURE_MUT_METHODS = {"as_mut_ptr", "as_mut_slice", "as_mut", "deref_mut", "borrow_mut", "get_mut", "iter_mut", "first_mut", "last_mut",
                      "as_mut_ref", "get_unchecked_mut", "split_at_mut"}
 _WIDE_METHODS = {
@@ -1069,6 +1070,9 @@ class Evaluator:
         i = self.ev(e["a"][1], fr)
         if isinstance(i, RatFunc) and i.is_const():
             return self.index(v, int(i.const_value()))
+        vv = self.deref(v)
+        if isinstance(vv, RatFunc) and _single_atom(vv) is not None:
+            return self.uninterpreted("index", [vv, i])
         raise Opaque("symbolic index")
 
     def ev_ref(self, e, fr):
@@ -1303,6 +1307,23 @@ class Evaluator:
                 binders.append(b)
             return conds, (lambda env: [b(env) for b in binders])
         if k == "struct":
+            pp = self.S[p["p"]] if isinstance(p["p"], int) else p["p"]
+            v = self.deref(v)
+            if isinstance(v, Ite):
+                # test each alternative separately
+                ct, bt = self.pat_test(p, v.t, fr)
+                cf, bf = self.pat_test(p, v.f, fr)
+                cond = mk_ite_c(v.c, ct, cf) if not (ct is True and cf is True) else True
+                sel = v
+
+                def binder(env, p=p, sel=sel):
+                    # bind through projections of the merged value (fields of the matching variant)
+                    for fname, sp in p["f"]:
+                        self.bind(sp, self._variant_proj(sel, fname, pp), env)
+                return cond, binder
+            if isinstance(v, Struct) and pp != "Self" and v.path.split("::")[-1] != pp.split("::")[-1] and (
+                    pp.split("::")[-1] in _VARIANT_NAMES or v.path.split("::")[-1] in _VARIANT_NAMES):
+                return False, (lambda env: None)
             if isinstance(v, (Struct, RatFunc)):
                 conds = True
                 binders = []
@@ -1350,6 +1371,13 @@ class Evaluator:
                 conds = b_or(conds, c)
             return conds, (lambda env: None)
         raise Opaque("pattern test %s on %r" % (k, v))
+
+    def _variant_proj(self, v, fname, pp):
+        if isinstance(v, Ite):
+            return mk_ite_c(v.c, self._variant_proj(v.t, fname, pp), self._variant_proj(v.f, fname, pp))
+        if isinstance(v, Struct) and v.path.split("::")[-1] == pp.split("::")[-1] and fname in v.fields:
+            return v.fields[fname]
+        return BOTTOM
 
     def for_loop(self, e, fr):
         # match IntoIterator::into_iter(<iter>) { mut iter => loop { match next(&mut iter) { None => break, Some(pat) => body } } }
@@ -1716,7 +1744,7 @@ class Evaluator:
         if isinstance(a, FloatSpecial):
             return a
         if isinstance(a, Closure):
-            raise Opaque("closure passed to uninterpreted function")
+            return self.ctx.sym("closure")
         if isinstance(a, Bottom):
             return a
         if isinstance(a, tuple) and a and a[0] == "fnref":
@@ -1992,17 +2020,10 @@ class Evaluator:
             if src.startswith("[") and isinstance(v, Array):
                 adt = self.F.adt_by_path.get(_adt_of_type(dst))
                 if adt is not None and len(adt["variants"]) == 1:
-                    fields = {}
                     items = list(v.items)
-                    for f in adt["variants"][0]["f"]:
-                        if self.S[f["t"]].startswith(("core::marker::PhantomData", "std::marker::PhantomData")):
-                            fields[f["n"]] = Struct("PhantomData", {})
-                        else:
-                            if not items:
-                                return NotImplemented
-                            fields[f["n"]] = items.pop(0)
-                    if not items:
-                        return Struct(adt["path"], fields)
+                    st = self._struct_from_items(dst, items)
+                    if st is not None and not items:
+                        return st
         return NotImplemented
 
     # ---- component collections / iterators ------------------------------------------
@@ -2027,7 +2048,10 @@ class Evaluator:
             x = v.fields.get(f["n"])
             if isinstance(x, Struct) and x.path.endswith("PhantomData"):
                 continue
-            out.append(x)
+            if isinstance(x, Struct) and x.path in self.F.adt_by_path and x.path != "<elementwise>":
+                out.extend(self.struct_components(x))  # nested colour (Alpha<C, T>): colour components first
+            else:
+                out.append(x)
         return out
 
     def op_into_array(self, args, fr, c, e):
@@ -2134,6 +2158,9 @@ class Evaluator:
                 return err_f(v.fields["0"], fr)
         if isinstance(v, Bottom):
             return v
+        if isinstance(v, RatFunc) and _single_atom(v) is not None:
+            cond = self.ctx.pred("is_ok", [v])
+            return self.branch(cond, lambda f2: ok_f(self.ctx.app("ok_value", [v]), f2), lambda f2: err_f(self.ctx.app("err_value", [v]), f2), fr)
         raise Opaque("Result operation on %r" % (v,))
 
     def op_res_unwrap(self, args, fr, c, e):
@@ -2153,6 +2180,87 @@ class Evaluator:
 
     def op_res_map_err(self, args, fr, c, e):
         return self.res_case(args[0], lambda x, f2: Struct(RES_OK, {"0": x}), lambda x, f2: Struct(RES_ERR, {"0": self.apply(args[1], [x], f2)}), fr)
+
+    def op_try_branch(self, args, fr, c, e):
+        CF = "std::ops::ControlFlow::"
+        v = self.deref(args[0])
+
+        def conv(x):
+            if isinstance(x, Ite):
+                return mk_ite_c(x.c, conv(x.t), conv(x.f))
+            if isinstance(x, Struct):
+                tail = x.path.split("::")[-1]
+                if tail in ("Ok", "Some"):
+                    return Struct(CF + "Continue", {"0": x.fields["0"]})
+                if tail in ("Err", "None"):
+                    return Struct(CF + "Break", {"0": x})
+            if isinstance(x, Bottom):
+                return x
+            if isinstance(x, RatFunc) and _single_atom(x) is not None:
+                cond = self.ctx.pred("is_ok", [x])
+                return mk_ite(cond, Struct(CF + "Continue", {"0": self.ctx.app("ok_value", [x])}),
+                              Struct(CF + "Break", {"0": Struct(RES_ERR, {"0": self.ctx.app("err_value", [x])})}))
+            raise Opaque("`?` on %r" % (x,))
+        return conv(v)
+
+    def op_from_residual(self, args, fr, c, e):
+        return self.deref(args[0])
+
+    def op_int_from_str_radix(self, args, fr, c, e):
+        a, r = self.deref(args[0]), self.deref(args[1])
+        if isinstance(a, StrVal) and isinstance(r, RatFunc) and r.is_const():
+            try:
+                t = a.s
+                if t[:1] == "+":
+                    t = t[1:]
+                if not t or t[:1] in "+-" or "_" in t:
+                    raise ValueError
+                return Struct(RES_OK, {"0": self.ctx.num(int(t, int(r.const_value())))})
+            except ValueError:
+                return Struct(RES_ERR, {"0": self.ctx.sym("ParseIntError")})
+        return self.uninterpreted("int.from_str_radix", [a, r])
+
+    def op_str_len(self, args, fr, c, e):
+        a = self.deref(args[0])
+        if isinstance(a, Ite):
+            return mk_ite_c(a.c, self.op_str_len([a.t], fr, c, e), self.op_str_len([a.f], fr, c, e))
+        if isinstance(a, StrVal):
+            return self.ctx.num(len(a.s.encode()))
+        if isinstance(a, RatFunc):
+            at = _single_atom(a)
+            # len(strip_prefix(X, one-byte char).unwrap()) = len(X) - 1
+            if at is not None and at.name == "payload:Some.0" and isinstance(at.args[0], RatFunc):
+                inner = _single_atom(at.args[0])
+                if inner is not None and inner.name.startswith(("core::str::<impl str>::strip_prefix", "std::str::<impl str>::strip_prefix")) and len(inner.args) == 2:
+                    pre = inner.args[1]
+                    pa = _single_atom(pre) if isinstance(pre, RatFunc) else None
+                    if pa is not None and pa.name.startswith("str:") and len(pa.name[4:].encode()) == 1:
+                        return self.binop("-", self.op_str_len([inner.args[0]], fr, c, e), self.ctx.num(1))
+        return self.uninterpreted("str::len", [a])
+
+    def _struct_from_items(self, ty, items):
+        """Rebuild a (possibly nested) colour struct of type `ty` from a flat component list (consumed in place)."""
+        from .alg import split_type
+        head, targs = split_type(ty)
+        adt = self.F.adt_by_path.get(head)
+        if adt is None or len(adt["variants"]) != 1:
+            return None
+        sub = dict(zip(adt["generics"], targs)) if len(adt["generics"]) == len(targs) else {}
+        fields = {}
+        for f in adt["variants"][0]["f"]:
+            ft = re.sub(r"\b[A-Za-z_][A-Za-z0-9_]*\b", lambda m: sub.get(m.group(0), m.group(0)), self.S[f["t"]])
+            if ft.startswith(("core::marker::PhantomData", "std::marker::PhantomData")):
+                fields[f["n"]] = Struct("PhantomData", {})
+            elif _adt_of_type(ft) in self.F.adt_by_path:
+                inner = self._struct_from_items(ft, items)
+                if inner is None:
+                    return None
+                fields[f["n"]] = inner
+            else:
+                if not items:
+                    return None
+                fields[f["n"]] = items.pop(0)
+        return Struct(adt["path"], fields)
 
     def op_phantom(self, args, fr, c, e):
         return Struct("PhantomData", {})
@@ -2317,9 +2425,13 @@ for _t in ("std", "core"):
         _reg(["%s::option::Option::<T>::%s" % (_t, _m)], "opt_" + _m)
     _reg(["%s::option::Option::<T>::expect" % _t], "opt_unwrap")
 for _t in ("std", "core"):
+    _reg(["%s::ops::Try::branch" % _t], "try_branch")
+    _reg(["%s::ops::FromResidual::from_residual" % _t], "from_residual")
+for _t in ("std", "core"):
     for _m in ("unwrap", "is_ok", "is_err", "ok", "map", "map_err"):
         _reg(["%s::result::Result::<T, E>::%s" % (_t, _m)], "res_" + _m)
     _reg(["%s::result::Result::<T, E>::expect" % _t], "res_unwrap")
+_reg(["core::str::<impl str>::len", "std::str::<impl str>::len"], "str_len")
 _reg(["cast::array::into_array"], "into_array")
 _reg(["cast::array::into_array_mut"], "into_array_mut")
 _reg(["num::Real::from_f64", "num::FromScalar::from_scalar"], "id.")
